@@ -9,6 +9,7 @@ open Py Model Model.Grid Model.Grid.World
 def isSum : Op → Bool
   | .addGrid _ _ => true
   | .embed _ _ _ _ => true
+  | .embedStandalone _ _ _ _ _ => true
   | _ => false
 
 theorem inv_step_core {w : World} (hI : Grid.Inv w) (op : Op) (hpre : pre w op = true) (hs : isSum op = false) :
@@ -37,6 +38,7 @@ theorem inv_step_core {w : World} (hI : Grid.Inv w) (op : Op) (hpre : pre w op =
     · rename_i e w' heq; simp only [heq]; exact this
   | addGrid s l => simp [isSum] at hs
   | embed s h b p => simp [isSum] at hs
+  | embedStandalone s h b p v => simp [isSum] at hs
   | addBlockFresh nm rock vol centre => exact stepReuse_inv hI _ hpre
   | readdBlock nm => exact stepReuse_inv hI _ hpre
   | readdRocktype nm => exact stepReuse_inv hI _ hpre
@@ -48,6 +50,7 @@ theorem inv_step {w : World} (hI : Grid.Inv w) (op : Op) (hpre : pre w op = true
   cases op with
   | addGrid s l => exact step_addGrid_inv hI s l hpre
   | embed s h b p => exact step_embed_inv hI s h b p hpre
+  | embedStandalone s h b p v => exact step_embedStandalone_inv hI s h b p v hpre
   | _ => exact inv_step_core hI _ hpre rfl
 
 end Proofs.Grid
